@@ -69,6 +69,16 @@ oracles apply unchanged (the model knows no file sizes and must simply agree).  
 children of one counter in a single `['bulk', mi, n, label_value_length, amount]` step so that counter_<pid>.db exceeds
 65536 bytes (model comparison off for that one: the driver's reply repeats the whole directory after every call).
 
+CORRUPT STORE FILES: a key in a file the library itself wrote that is no longer the canonical JSON text of
+[str, str, {str: str}, str] is an oracle failure (C09:store-file-corrupt), not an infrastructure error; the model
+comparison of that history stops at the first value-level call after which such a key is on disk.
+KEY ORDER: family 'order' — the identity switched TO already has per-type files whose key order differs from the acting
+worker's creation order (an earlier worker generation created the same metrics in another order, or other/extra
+metrics first; also a leading throw-away generation that pre-populates the directory before the first real worker),
+then updates through every value; 'order:rebind-into-differently-ordered-file' counts the re-bindings that meet one.
+STRING identities: look-alike groups of c08.ID_GROUPS ('w-0b', 'w-0d', 'w-0', ...) occur together in one history.
+Identities never contain '_', so `basename.endswith('_<identity>.db')` is an exact test of the file's identity.
+
 FALSY identities: the identity pool contains 0 (and the empty string, which the clean library accepts end to end: files
 `counter_.db`, pid label '') — as the initial identity, as the target of a change, as the identity returned to, as a
 reused pid of a new worker and as the argument of mark_process_dead; the systematic families are re-run with 10 or 11
@@ -274,6 +284,13 @@ def oracle_unreadable(res, i, snap):
         res.failures.append(('C09:store-file-unreadable:' + cls, 'the store reader raised %s on %s: %s' % (cls, bn, msg), i))
 
 
+def oracle_corrupt(res, i, snap):
+    """a key the library wrote that no longer decodes as the canonical JSON of [name, sample name, {labels}, help]"""
+    for bn, j, raw in mpsim.corrupt_keys(snap):
+        res.failures.append(('C09:store-file-corrupt', 'entry %d of %s has the key %r, which is not the canonical JSON text of '
+                             '[name, sample name, {labels}, help]' % (j, bn, raw[:160]), i))
+
+
 def oracle_raw(res, i, kind, pid, before, after, exempt=()):
     """"the previous identity's files are never written again by the new process", on the BYTES: a step executed under
     identity `pid` must leave every file not named `…_<pid>.db` byte-identical (same size, same content, unused tail
@@ -395,6 +412,23 @@ class Worker:
         return len(gone)
 
 
+def different_order(w, before, pid):
+    """is some file of identity `pid` that existed BEFORE this step laid out differently from what the acting worker
+    alone would have produced (its keys of that file prefix in creation order)"""
+    mine = {}
+    for obj in w.log.objs:
+        if hasattr(obj, '_key') and hasattr(obj, '_params'):
+            mine.setdefault(file_prefix_of(obj), []).append(obj._key)
+    for pre, keys in mine.items():
+        entries = before.get('%s_%s.db' % (pre, pid))
+        if not entries or isinstance(entries, mpsim.Unreadable):
+            continue
+        on_disk = [e[0] for e in entries]
+        if on_disk != keys[:len(on_disk)]:     # not what this worker alone would have laid out
+            return True
+    return False
+
+
 def needs_cache(md, uop):
     """does this update read the value object's cached value (everything except a plain set)"""
     return not (uop in ('set', 'reset', 'settime'))
@@ -428,6 +462,10 @@ def _run_history(scen, want_sample=False):
         res.count('identity:0')
     if '' in ids_used:
         res.count('identity:empty-string')
+    if any(isinstance(q, str) and q for q in ids_used):
+        res.count('identity:strings')
+        if any(len(ids_used & set(g)) >= 2 for g in c08.ID_GROUPS):
+            res.count('identity:look-alike-group')
     limit = scen.get('initial_mmap_size') or 65536
     grown = set()       # files that grew past the initial size
     left = set()        # identities the history has left (identity change away, worker ended)
@@ -530,6 +568,7 @@ def _run_history(scen, want_sample=False):
             elif op.startswith('old-') and st[1] not in w.handles:
                 res.count('stale-handle:no-such-handle')    # (shrunk lists / after a new worker) nothing to do
             else:
+                rebind_diff = w.cell[0] != w.remembered and different_order(w, before, w.cell[0])
                 old = op.startswith('old-')
                 if old:
                     inst = w.handles[st[1]]
@@ -626,6 +665,8 @@ def _run_history(scen, want_sample=False):
                     raised = type(e).__name__
                     res.failures.append(('C09:raises', 'step %r under identity %s raised %s: %s' % (st, pid, raised, e), i))
                 if len(world.ops) > nlog:
+                    if rebind_diff:
+                        res.count('order:rebind-into-differently-ordered-file')
                     w.sync()
                     oracle.touched(pid)
                 for o in world.ops[nlog:]:
@@ -653,6 +694,7 @@ def _run_history(scen, want_sample=False):
                     res.failures.append(('C09:reset-not-zero', 'right after Counter.reset() on %s%r under identity %s the entry in %s reads %r' % (
                         md['name'], list(lvs), w.cell[0], fn, held), i))
             oracle_unreadable(res, i, after)
+            oracle_corrupt(res, i, after)
             oracle_a(res, i, pid, before, after, kind)
             oracle_raw(res, i, kind, pid, raw_before, raw_after, exiting)
             try:
@@ -674,11 +716,13 @@ def _run_history(scen, want_sample=False):
         if any(k.startswith('stale-handle:update-through') for k in res.counts):
             res.count('stale-handle:' + ('interleaved' if lossy else ('sequential-handover' if handover else 'epoch-single-object')))
         if scen.get('expect_growth') and not res.counts.get('growth:update-after-return-to-grown-file') and not res.failures:
-            raise lib.Infra('growth history did not return to a file grown past %d bytes: %r' % (limit, res.grown_sizes))
+            res.count('growth:EXPECTED-GROWTH-DID-NOT-HAPPEN')      # visible in the evidence; not an infrastructure fact
         res.line = mpsim.hist_request(scen['pid0'], world.ops) if not scen.get('no_model') else None
         res.nops = len(world.ops)
         res.gets = dict(world.gets)
-        res.snaps = {k: mpsim.canon_snapshot(v) for k, v in res.snaps.items()}
+        cut = min([k for k, v in res.snaps.items() if mpsim.corrupt_keys(v)] or [len(world.ops)])
+        res.snaps = {k: mpsim.canon_snapshot(v) for k, v in res.snaps.items() if k < cut}
+        res.gets = {k: v for k, v in res.gets.items() if k < cut}
         if any(st[0] in ('pid', 'W', 'D') for st in scen['steps']):
             res.key = hashlib.md5(((res.line or repr(scen['steps'])) + mpsim.fams_fingerprint(canon)).encode('utf-8')).hexdigest()
         if want_sample:
@@ -757,6 +801,9 @@ def rename_ids(scen, mapping):
 
 def pick_ids(rng, n):
     """n distinct identities; 0 in about 40 % of the histories, the empty string in about 10 %"""
+    if rng.random() < 0.12:     # string identities, look-alikes together
+        g = rng.choice(c08.ID_GROUPS)
+        return rng.sample(g, min(n, len(g)))
     pids = rng.sample(c08.PID_POOL, n)
     if rng.random() < 0.4:
         pids[rng.randrange(n)] = 0
@@ -981,6 +1028,38 @@ def relabel_insertions(steps):
             yield a + [R, ['W', 10]] + b
             yield a + [R, ['W', 11]] + b[:1] + [R, ['W', 10]] + b[1:]
             yield a + [R, ['pid', 11], relabel, ['D', 10]] + b
+
+
+# ================================================================================================== key order
+def order_histories():
+    """the identity switched to already has files laid out in ANOTHER key order than the acting worker's creation order"""
+    t = [B(10.0 + j) for j in range(8)]
+    sets = [
+        ('counters', [mdef('counter', 'c0'), mdef('counter', 'c1'), mdef('counter', 'c2', ['l'])],
+         [lambda x: ['inc', 0, [], B(x)], lambda x: ['inc', 1, [], B(x)], lambda x: ['inc', 2, ['x'], B(x)]]),
+        ('gauges', [mdef('gauge', 'g0', (), 'all'), mdef('gauge', 'g1', (), 'all'), mdef('gauge', 'g2', ['l'], 'all')],
+         [lambda x: ['set', 0, [], B(x), t[0]], lambda x: ['inc', 1, [], B(x), t[1]], lambda x: ['set', 2, ['x'], B(x), t[2]]]),
+        ('live-gauges', [mdef('gauge', 'v0', (), 'livesum'), mdef('gauge', 'v1', ['l'], 'livesum'), mdef('gauge', 'v2', (), 'livesum')],
+         [lambda x: ['inc', 0, [], B(x), t[0]], lambda x: ['set', 1, ['x'], B(x), t[1]], lambda x: ['inc', 2, [], B(x), t[2]]]),
+        ('summaries+histogram', [mdef('summary', 's0'), mdef('summary', 's1', ['l']), mdef('histogram', 'h', (), '', 'small')],
+         [lambda x: ['obs', 0, [], B(x)], lambda x: ['obs', 1, ['x'], B(x)], lambda x: ['obs', 2, [], B(x)]]),
+    ]
+    k = 0
+    for name, pool, U in sets:
+        first = [U[0](1.0), U[1](2.0), U[2](4.0)]
+        every = [U[0](8.0), U[1](16.0), U[2](32.0), ['read', 0], ['read', 1]]
+        for perm in ((1, 0, 2), (2, 1, 0), (1, 2, 0)):
+            second = [U[j](0.5) for j in perm]
+            shapes = [
+                first + [['W', 11]] + second + [['pid', 10]] + every,                     # (a) another generation, then back into 10's layout
+                first + [['W', 10]] + second + [['pid', 11]] + every + [['pid', 10]] + every[:3],   # the pid reused, then a FRESH identity
+                [U[2](4.0), U[0](1.0), U[1](2.0), ['W', 11]] + second[:2] + [['pid', 10]] + every,   # (b) extra metric created first
+                [['W', 12]] + second + [['W', 11]] + first + [['pid', 12]] + every,       # (c) pre-populated before the first real worker
+                first + [['D', 10], ['W', 11]] + second + [['pid', 10]] + every + [['D', 11], ['W', 10]] + second,
+            ]
+            for steps in shapes:
+                k += 1
+                yield rename_ids({'pool': pool, 'pid0': 10, 'variant': 0, 'steps': steps}, [{}, {10: 0}, {11: 'w-0b', 10: 'w-0'}, {}][k % 4])
 
 
 # ================================================================================================== growth
@@ -1440,7 +1519,8 @@ def run(ctx):
                 'worker generations with identity changes inside and deaths between and inside them; one case = one history, '
 'family "relabel": 3 base scripts on labelled metrics with remove()/clear() of the next child at every position and '
                 'an identity change / new worker / death at every place relative to it, plus remove/clear sprinkled into all random '
-                'histories; growth histories (initial store size patched to 256/512 bytes: fill a file past it, leave the identity, come '
+                'histories; key-order histories (re-binding into files an earlier generation laid out differently); int, falsy and string identities '
+                '(look-alike groups together); growth histories (initial store size patched to 256/512 bytes: fill a file past it, leave the identity, come '
                 'back by identity change / pid reuse / death+restart, update old and new children) and one unpatched with ~700 children; '
                 'stale-handle histories (a kept old child object next to its re-created successor, updated around identity changes); '
                 '3 real-process cases (helper subprocess, default value class, os.fork and raw libc fork); the falsy identities 0 and "" occur as initial identity, change target, identity returned to, reused pid '
@@ -1474,6 +1554,12 @@ def run(ctx):
             ctx.count('histories:systematic')
             if len(batch) >= 60:
                 flush(ctx, rep, batch)
+        if bi in (2, 3, 8):     # gauge bases: the single-change and first two-change placements with look-alike STRING identities
+            for m in ({10: 'w-0b', 11: 'w-0d', 12: 'w-0'}, {10: 'a', 11: 'a.db', 12: 'a.d'}, {10: 'bd', 11: 'd', 12: 'b'}):
+                for ins in list(insertions(steps, 10, 11, 12))[1:len(steps) + 8]:
+                    scen = rename_ids({'pool': pool, 'pid0': 10, 'steps': ins, 'variant': 0}, m)
+                    batch.append((scen, run_history(scen)))
+                    ctx.count('histories:systematic')
         if bi in (0, 3, 5):     # the single-change placements again with the empty string as an identity
             for m in ({11: ''}, {10: ''}, {10: 0, 11: ''}):
                 for ins in list(insertions(steps, 10, 11, 12))[1:len(steps) + 2]:
@@ -1504,6 +1590,11 @@ def run(ctx):
             if len(batch) >= 60:
                 flush(ctx, rep, batch)
     flush(ctx, rep, batch)
+    for scen in order_histories():
+        batch.append((scen, run_history(scen)))
+        ctx.count('histories:order')
+        if len(batch) >= 60:
+            flush(ctx, rep, batch)
     for scen in growth_histories():
         batch.append((scen, run_history(scen)))
         ctx.count('histories:growth')
